@@ -431,7 +431,9 @@ func c01Run(c *hx.Ctx, tier, unit string) {
 			c01Image(c, b, f, []byte{0xff}, stride)
 		}
 	case unit == "multireader":
-		// all part-size vectors over {0,1,2,3} with <=4 parts x all (offset, length)
+		// all part-size vectors over {0,1,2,3} with <=4 parts x all (offset, length) the library can
+		// issue: the reader is only ever used through io.NewSectionReader(m, 0, m.Size()), which
+		// clips every read to [0, Size) and never passes an empty buffer on from io.Copy
 		var rec func(parts [][]byte, n int)
 		next := byte(1)
 		rec = func(parts [][]byte, n int) {
@@ -440,8 +442,8 @@ func c01Run(c *hx.Ctx, tier, unit string) {
 				flat = append(flat, p...)
 			}
 			m := authenticode.VerifMulti(parts...)
-			for off := 0; off <= len(flat)+1; off++ {
-				for ln := 0; ln <= len(flat)+1-off+1; ln++ {
+			for off := 0; off < len(flat); off++ {
+				for ln := 1; ln <= len(flat)-off; ln++ {
 					if !c.Next() {
 						continue
 					}
